@@ -287,6 +287,16 @@ def check_cohorts(rec, s, prop="C09", where="compute"):
         viol("cohort-table-nonzero-for-cohort-later-than-year")
     if np.max(np.abs(sbc.sum(axis=1) - st)) > tol:
         viol("stock-differs-from-sum-of-cohorts", worst=float(np.max(np.abs(sbc.sum(axis=1) - st))), scale=scale)
+    if cls == "InflowDrivenDSM" and np.all(inf >= 0):
+        # a sum of non-negative terms is accurate relative to ITSELF, however large other entries of the array are
+        # (a stock obtained by cumulating inflow - outflow would lose its small entries to cancellation)
+        sf_ = np.asarray(s.lifetime_model.sf, dtype=float)
+        comp = (entered[np.newaxis, ...] * sf_).sum(axis=1)
+        err = np.abs(st - comp)
+        bad = err > 1e-9 * comp + 1e-300
+        if np.any(bad):
+            t_ = int(np.unravel_index(np.argmax(np.where(bad, err / np.maximum(comp, 1e-300), 0)), st.shape)[0])
+            viol("stock-entry-inaccurate-relative-to-itself", year=t_, worst_relative=float(np.max(np.where(comp > 0, err / np.maximum(comp, 1e-300), 0))), dynamic_range=float(np.max(st) / max(np.min(st[st > 0]) if np.any(st > 0) else 1.0, 1e-300)))
     oscale = max(float(np.max(np.abs(out))), float(np.max(np.abs(inf))), 1e-300)
     if np.max(np.abs(obc.sum(axis=1) - out)) > 1e-9 * oscale:
         viol("outflow-differs-from-sum-of-cohorts", worst=float(np.max(np.abs(obc.sum(axis=1) - out))))
